@@ -122,7 +122,9 @@ func isPrivate(x *ast.Field) bool {
 	if len(x.Names) == 0 {
 		s = fmt.Sprintf("%s", x.Type)
 	} else {
-		s = fmt.Sprintf("%s", x.Names[0])
+		// go decides what is exported, '_', '_x' and names that
+		// start with a non-ascii lower case letter are not.
+		return !ast.IsExported(x.Names[0].Name)
 	}
 	return strings.Contains(letters, string(s[0]))
 }
